@@ -422,11 +422,17 @@ class QvmCpu:
         if not self.error_handler_active and \
            self.trap_target is not None:
             if self.trap_target == 'next':
-                self._exec_errresn()
+                try:
+                    self._exec_errresn()
+                    return
+                except Trapped:
+                    # cannot resume (e.g. no debug info): report the
+                    # original error below instead of escaping tick()
+                    pass
             else:
                 self.pc = self.trap_target
                 self.error_handler_active = True
-            return
+                return
 
         if code == TrapCode.INVALID_OP_CODE:
             op_code = kwargs['op_code']
